@@ -88,7 +88,7 @@ func TestC12_ChallengePoolEqualsBlobberValues(t *testing.T) {
 // exceeds its capacity when an allocation is assigned to it; its stake pool's total offers equal the sum of those offers.
 func TestC13_CapacityAndOffers(t *testing.T) {
 	closedShared := 0
-	runMachine(t, "C13", storageDomain+"; oracle after every applied transaction, per blobber: Allocated == sum over the open allocations of its per-blobber Size; stake pool TotalOffers == sum of those allocations' offers; Allocated <= Capacity right after a transaction that assigned an allocation to it; and every open allocation's owner can still close it: a dry-run cancel on a scratch fork must not fail for lack of offers; non-trivial = history in which a blobber served >= 2 allocations and one of them was closed; distinct by history", 40, 90,
+	runMachine(t, "C13", storageDomain+"; oracle after every applied transaction, per blobber: Allocated == sum over the open allocations of its per-blobber Size; stake pool TotalOffers == sum of those allocations' offers; Allocated <= Capacity right after a transaction that assigned an allocation to it; and every open allocation's owner can still close it: a dry-run cancel on a scratch fork must not fail for lack of offers; non-trivial = history that created >= 2 allocations and in which a cancel / finalize succeeded while some blobber still served another open allocation of the history; distinct by history", 40, 90,
 		func(m *machine, txn *transaction.Transaction, o sim.Outcome, before *snapshot) error {
 			v := m.w.View()
 			size := map[string]int64{}
